@@ -127,8 +127,8 @@ func Sparse6Decode(s string) (*SparseGraph, error) {
 	}
 
 	//Check the initial byte and remove it.
-	if s[0] != 58 {
-		return &SparseGraph{}, fmt.Errorf("Incorrect first character. Expected: : Found: %v", s[0])
+	if len(s) == 0 || s[0] != 58 {
+		return &SparseGraph{}, errors.New("Incorrect first character. Expected: :")
 	}
 	s = s[1:]
 
@@ -142,13 +142,14 @@ func Sparse6Decode(s string) (*SparseGraph, error) {
 	var n uint64
 	i := 0
 
-	if s[0] != 126 {
+	if len(s) == 0 {
+		return &SparseGraph{}, errors.New("String too short - unable to decode n")
+	} else if s[0] != 126 {
 		n = uint64(s[0] - 63)
 		i = 1
+	} else if len(s) < 4 {
+		return &SparseGraph{}, errors.New("String too short - unable to decode n")
 	} else if s[1] != 126 {
-		if len(s) < 4 {
-			return &SparseGraph{}, errors.New("String too short - unable to decode n")
-		}
 		n = (uint64(s[1]-63) << 12) + (uint64(s[2]-63) << 6) + uint64(s[3]-63)
 		i = 4
 	} else {
@@ -160,42 +161,39 @@ func Sparse6Decode(s string) (*SparseGraph, error) {
 	}
 
 	g := NewSparse(int(n), nil)
+	if n == 0 {
+		return g, nil
+	}
 	v := 0
+	//The number of bits needed to express n - 1.
 	k := 64 - bits.LeadingZeros64(n-1)
-	var bitIndex uint
-	for {
-		b := ((s[i] - 63) >> (5 - bitIndex)) & 1
-		bitIndex++
-		if bitIndex == 6 {
-			bitIndex = 0
-			i++
-			if i >= len(s) {
-				return g, nil
-			}
-		}
-		if b == 1 {
+	//The rest of the string is a sequence of (b, x) pairs where b is a single bit and x is k bits. An incomplete pair at the end is padding.
+	numBits := 6 * (len(s) - i)
+	bit := func(p int) int {
+		return int((s[i+p/6]-63)>>uint(5-p%6)) & 1
+	}
+	for p := 0; p+1+k <= numBits; p += 1 + k {
+		if bit(p) == 1 {
 			v++
 		}
 		x := 0
 		for j := 0; j < k; j++ {
-			if ((s[i]-63)>>(5-bitIndex))&1 == 1 {
-				x |= 1 << uint(k-j-1)
-			}
-			bitIndex++
-			if bitIndex == 6 {
-				bitIndex = 0
-				i++
-				if i >= len(s) {
-					return g, nil
-				}
-			}
+			x = x<<1 | bit(p+1+j)
+		}
+		if uint64(v) >= n {
+			//The rest of the string is padding.
+			break
 		}
 		if x > v {
 			v = x
+			if uint64(v) >= n {
+				break
+			}
 		} else {
 			g.AddEdge(v, x)
 		}
 	}
+	return g, nil
 }
 
 //Sparse6Encode returns an encoding of g. Note that the encoding is not unique but this should align with the format used by showg, geng, nauty etc.
